@@ -151,8 +151,14 @@ func runGrpcPool(m map[string]string) string {
 		// Which object a sync.Pool hands out is the runtime's choice (per-P lists, emptied by the collector). So that the
 		// provider meets used objects whatever that choice is, the pool's allocation function hands out USED objects as
 		// well: every object the provider ever decodes into is in a state a Release can leave behind.
-		var seq atomic.Int64
-		p.Pool.New = func() any { return r4Dirty(int(seq.Add(1))) }
+		// (only as long as the provider's own Release leaves an object as it is — regenerated: srcGrpcProviderRelease — which
+		// is probed here with the real method: an object that comes back cleaned means there are no used states to hand out)
+		probe := r4Dirty(0)
+		p.Release(probe)
+		if got, _ := p.Pool.Get().(*grpcammo.Ammo); got != probe || (got.Tag == "stale" && len(got.Metadata) > 0) {
+			var seq atomic.Int64
+			p.Pool.New = func() any { return r4Dirty(int(seq.Add(1))) }
+		}
 		// and from several goroutines, so that the objects land in the pool's shared lists of several Ps (the first Put of a
 		// P goes to a slot only that P can take from)
 		var wg sync.WaitGroup
@@ -161,7 +167,7 @@ func runGrpcPool(m map[string]string) string {
 			go func(w int) {
 				defer wg.Done()
 				for i := w; i < dirty; i += 4 {
-					p.Pool.Put(r4Dirty(i))
+					p.Release(r4Dirty(i)) // through the provider's own Release
 				}
 			}(w)
 		}
@@ -416,6 +422,7 @@ type r4LateTarget struct {
 	Addr string
 	t    *r3Target
 	f    *os.File
+	down int // stop listening after this many accepted connections (0: never)
 }
 
 func r4NewLateTarget() *r4LateTarget {
@@ -435,6 +442,26 @@ func r4NewLateTarget() *r4LateTarget {
 	return &r4LateTarget{fd: fd, Addr: fmt.Sprintf("127.0.0.1:%d", sn.(*syscall.SockaddrInet4).Port)}
 }
 
+// r4DownListener stops listening for good once it has accepted `down` connections: the connections it accepted are
+// served, every later dial is refused (the target went away in the middle of the run).
+type r4DownListener struct {
+	net.Listener
+	down, seen int
+	stop       func()
+}
+
+func (d *r4DownListener) Accept() (net.Conn, error) {
+	if d.down > 0 && d.seen >= d.down {
+		d.stop()
+		return nil, net.ErrClosed
+	}
+	c, err := d.Listener.Accept()
+	if err == nil {
+		d.seen++
+	}
+	return c, err
+}
+
 func (l *r4LateTarget) open() string {
 	if err := syscall.Listen(l.fd, 128); err != nil {
 		return "err:listen_" + strings.Join(strings.Fields(err.Error()), "_")
@@ -444,7 +471,12 @@ func (l *r4LateTarget) open() string {
 	if err != nil {
 		return "err:listen_" + strings.Join(strings.Fields(err.Error()), "_")
 	}
-	l.t = r3NewTargetOn(ln)
+	var served net.Listener = ln
+	if l.down > 0 {
+		// every dup of the socket must go, or the kernel keeps completing handshakes into the accept queue
+		served = &r4DownListener{Listener: ln, down: l.down, stop: func() { _ = ln.Close(); _ = l.f.Close() }}
+	}
+	l.t = r3NewTargetOn(served)
 	l.t.other = l.t
 	return ""
 }
@@ -462,7 +494,7 @@ func (l *r4LateTarget) close() {
 
 // r4NamedTarget prepares the target of a `tgt=nd|nf|nl` case: the name the gun is configured with, what has to happen
 // once the gun is configured, and the cleanup.
-func r4NamedTarget(kind string) (name string, afterDecode func([]engine.InstancePoolConfig) string, done func()) {
+func r4NamedTarget(kind string, down int) (name string, afterDecode func([]engine.InstancePoolConfig) string, done func()) {
 	switch kind {
 	case "nd":
 		return r4Name(shot.DeadAddr()), nil, func() {}
@@ -470,9 +502,47 @@ func r4NamedTarget(kind string) (name string, afterDecode func([]engine.Instance
 		return r4Name(r4FullTarget()), nil, func() {}
 	case "nl":
 		l := r4NewLateTarget()
+		l.down = down
 		return r4Name(l.Addr), func([]engine.InstancePoolConfig) string { return l.open() }, l.close
 	}
 	panic("bad named target " + kind)
+}
+
+// r4DialRef: the reference run of a dial-failure case (`dial.dns-cache` turned off; same target NAME, same timeout, same
+// client options): the net codes of its samples in id order, ` ref=111,111`.
+func r4DialRef(res shot.Result) string {
+	shot.SortByID(res.Samples)
+	var nets []string
+	for _, s := range res.Samples {
+		nets = append(nets, strconv.Itoa(s.Net))
+	}
+	if res.Class != "ok" {
+		return " ref=" + res.Class
+	}
+	return " ref=" + strings.Join(nets, ",")
+}
+
+// r4AsURIPost rewrites the pool of a k=http case to read the same requests from a `uripost` file: every request is a
+// POST with a body of its own.
+func r4AsURIPost(conf string, reqs []shot.HTTPReq) string {
+	var b strings.Builder
+	for i, q := range reqs {
+		body := fmt.Sprintf("{\"n\": %d, \"pad\": \"%s\"}", i, strings.Repeat("x", i%5*7))
+		fmt.Fprintf(&b, "[X-Script: %s]\n", q.Script)
+		if q.Tag != "" {
+			fmt.Fprintf(&b, "%d %s %s\n%s\n", len(body), q.URI, q.Tag, body)
+		} else {
+			fmt.Fprintf(&b, "%d %s\n%s\n", len(body), q.URI, body)
+		}
+	}
+	f := shot.TempFile(".uripost", b.String())
+	i := strings.Index(conf, `ammo: {type: "uri", file: "`)
+	if i < 0 {
+		panic("no uri ammo section in " + conf)
+	}
+	j := i + len(`ammo: {type: "uri", file: "`)
+	k := strings.IndexByte(conf[j:], '"')
+	return conf[:i] + `ammo: {type: "uripost", file: "` + f + conf[j+k:]
 }
 
 // ---------------------------------------------------------------- generator of the fourth round
@@ -574,6 +644,34 @@ func genRound4(r *rand.Rand, thorough bool) []string {
 			out = append(out, fmt.Sprintf("k=ids prov=%s inst=%d n=%d%s start=%d", provs[(i+2)%len(provs)], []int{2, 32, 5}[i%3], 600, pre, s+17))
 		}
 	}
+	// G2b. POSTs with a body through redirects (uripost provider): 307 / 308 keep method and body, 301 / 302 / 303 turn the
+	// request into a GET; chains, the client's limit, redirects off and on
+	for rep := 0; rep < pick(1, 8); rep++ {
+		for _, gun := range []string{"http", "connect"} {
+			for _, redir := range []string{"", "redir=1"} {
+				var reqs []string
+				for j, st := range []string{"307", "308", "302", "303", "301"} {
+					kind := []string{"r", "a", "q", "r", "o"}[(j+rep)%5]
+					final := []string{"s200.bx3", "s404", "s201.bx1", "s503.bx2", "s200.bempty"}[(j+2*rep)%5]
+					hops := []string{st + kind}
+					if (j+rep)%3 == 0 {
+						hops = append(hops, []string{"307r", "308a", "302r"}[(j+rep)%3])
+					}
+					script, lean := r3Chain(hops, final)
+					p := fmt.Sprintf("/post/%d/%s", j, randSeg(r))
+					reqs = append(reqs, r3ReqTok(tagPool[r.Intn(len(tagPool))], p, p, script, lean))
+				}
+				// a 307 without Location, one with an unparsable one, and a plain answer
+				for j, h := range []string{"307n", "308u1"} {
+					script, lean := r3Chain([]string{h}, "s200.bx1")
+					p := fmt.Sprintf("/post/x%d", j)
+					reqs = append(reqs, r3ReqTok("", p, p, script, lean))
+				}
+				reqs = append(reqs, httpReqTok("plain", "/post/plain", "/post/plain", "s202.bx4"))
+				out = append(out, httpCase(gun, "r3", rep%2 == 0, 2, false, strings.TrimSpace("prov=uripost "+redir), reqs))
+			}
+		}
+	}
 	// G3. dial failures through the DNS-caching dialer: target named by a host name nobody listens at when the gun is
 	// configured; refused (nd), silent (nf: the dial times out), listening late (nl)
 	for rep := 0; rep < pick(1, 6); rep++ {
@@ -592,9 +690,9 @@ func genRound4(r *rand.Rand, thorough bool) []string {
 				if rep > 0 {
 					extra = strings.TrimSpace(extra + " " + randDims(r, true))
 				}
-				out = append(out, httpCase(gun, "nd", r.Intn(2) == 0, 1+r.Intn(2), false, extra, reqs))
+				out = append(out, httpCase(gun, "nd", r.Intn(2) == 0, 1+r.Intn(2), false, strings.TrimSpace("dref=1 "+extra), reqs))
 				// the dial times out (250 ms)
-				out = append(out, httpCase(gun, "nf", r.Intn(2) == 0, 1, false, strings.TrimSpace("dto=250 "+extra),
+				out = append(out, httpCase(gun, "nf", r.Intn(2) == 0, 1, false, strings.TrimSpace("dref=1 dto=250 "+extra),
 					[]string{fmt.Sprintf("%s,%s,%s,s200,dt", tagPool[r.Intn(len(tagPool))], hx("/nf/a"), hx("/nf/a"))}))
 			}
 		}
@@ -610,6 +708,23 @@ func genRound4(r *rand.Rand, thorough bool) []string {
 				extra = "redir=1"
 			}
 			out = append(out, httpCase(gun, "nl", true, 1+rep%2, false, extra, reqs))
+		}
+		// the target GOES AWAY after the caching dialer has remembered its address (`down=N`: it stops listening once it has
+		// accepted N connections): the later dials are refused through the dialer's CACHED path
+		for _, gun := range []string{"http", "connect"} {
+			for _, redir := range []string{"", " redir=1"} {
+				n := 1 + (rep+len(redir))%3
+				var reqs []string
+				for j := 0; j < n; j++ {
+					p := "/up/" + randSeg(r)
+					reqs = append(reqs, httpReqTok(tagPool[r.Intn(len(tagPool))], p, p, []string{"s200.bx3", "s404", "s503.bx1"}[j%3]))
+				}
+				for j := 0; j < 2; j++ {
+					p := "/down/" + randSeg(r)
+					reqs = append(reqs, strings.Replace(httpReqTok(tagPool[r.Intn(len(tagPool))], p, p, "s200"), ",r200", ","+refusedTok, 1))
+				}
+				out = append(out, httpCase(gun, "nl", r.Intn(2) == 0, 1, false, fmt.Sprintf("dref=1 down=%d%s", n, redir), reqs))
+			}
 		}
 	}
 	return out
